@@ -68,15 +68,19 @@ type Ctx struct {
 	litNames  map[string]string
 	immutOK   map[string]string // immutable field -> "" if check passed, else violation text
 	notes     map[string]bool   // assumptions actually used
+	lemmas    []*Contract
+	lemmaObls []*Obligation
+	lemmaDecl []string
 }
 
 // Axiom is a global assertion, included in a query only when its symbol occurs.
 type Axiom struct {
-	Sym  string
-	Text string
+	Sym   string
+	Text  string
+	Lemma int // 0: ordinary axiom; n>0: the n-th lemma (usable only by later lemmas and by procedures)
 }
 
-func (c *Ctx) addAxiom(sym, text string) { c.gax = append(c.gax, Axiom{sym, text}) }
+func (c *Ctx) addAxiom(sym, text string) { c.gax = append(c.gax, Axiom{Sym: sym, Text: text}) }
 
 type specFuncInfo struct {
 	name    string
@@ -256,6 +260,10 @@ func (c *Ctx) loadContracts(libDir string) error {
 			key := path + "." + ct.Name
 			if ct.Kind == "invariant" {
 				key = "inv:" + key
+			}
+			if ct.Kind == "lemma" {
+				key = "lemma:" + key
+				c.lemmas = append(c.lemmas, ct)
 			}
 			if _, dup := c.contracts[key]; dup {
 				return fmt.Errorf("%s: duplicate contract for %s", ct.Where, ct.Name)
